@@ -69,5 +69,23 @@ HCall(k, i) == LET sfx == ToString(i) IN
 HPre == <<VarDef(<<"o", "e">>, "string", <<>>), VarDef(<<"c">>, "int", <<>>)>>
 Hist3 == {Mk("C18/hist/" \o HKinds[a] \o "-" \o HKinds[b] \o "-" \o HKinds[d] \o "/" \o ctx, ctx, HPre \o HCall(HKinds[a], 1) \o HCall(HKinds[b], 2) \o HCall(HKinds[d], 3) \o <<Print1(StrL("end"))>>)
           : a \in 1..5, b \in 1..5, d \in 1..5, ctx \in (IF Quick THEN {"func"} ELSE {"top", "func"})}
-ASSUME ndJsonSerialize("fam.ndjson", SetToSeq(One \cup Two \cup {c \in Many : TRUE} \cup Pipes \cup Seqs \cup Hist3))
+\* ONE call site executed again and again with a different exit status each time (round 10: a status register written only on failure and never reset):
+\* every sequence of four statuses out of {0, 3} x the site in a loop / in a function called four times x captured by := / by = / as the last stage of a pipe
+RECURSIVE BSeqs(_)
+BSeqs(n) == IF n = 0 THEN {<<>>} ELSE {<<x>> \o q : x \in {0, 3}, q \in BSeqs(n - 1)}
+RECURSIVE BName(_)
+BName(q) == IF q = <<>> THEN "" ELSE ToString(q[1]) \o BName(Tail(q))
+SiteCall(form, codeE) ==
+  LET arg == Bin("+", StrL("x"), Itoa(codeE)) IN
+  CASE form = "define" -> <<Def(<<"o", "e", "c">>, <<App(<<Stage("pa", <<arg, StrL("v")>>)>>)>>), PrintS(<<StrL("["), Var("o"), StrL("]"), Var("c")>>)>>
+    [] form = "assign" -> <<Asg(<<"go", "ge", "gc">>, <<App(<<Stage("pa", <<arg>>)>>)>>), PrintS(<<StrL("["), Var("go"), StrL("]"), Var("gc")>>)>>
+    [] form = "pipe"   -> <<Def(<<"o", "e", "c">>, <<App(<<Stage("pb", <<StrL("first")>>), Stage("pa", <<arg>>)>>)>>), PrintS(<<StrL("["), Var("o"), StrL("]"), Var("c")>>)>>
+    [] form = "cond"   -> <<Def(<<"o", "e", "c">>, <<App(<<Stage("pa", <<arg>>)>>)>>), IfElse(CmpE("==", Var("c"), NatLit(0)), <<Print1(StrL("ok"))>>, <<PrintS(<<StrL("failed"), Var("c")>>)>>)>>
+SitePre(q) == <<Def1("codes", SliceLit("int", [i \in 1..Len(q) |-> NatLit(q[i])])), VarDef(<<"go", "ge">>, "string", <<>>), VarDef(<<"gc">>, "int", <<>>)>>
+SiteProg(q, form, where) ==
+  IF where = "loop" THEN SitePre(q) \o <<For3(Def1("i", NatLit(0)), CmpE("<", Var("i"), NatLit(Len(q))), Inc("i"), SiteCall(form, IndexE(Var("codes"), Var("i"))))>>
+  ELSE SitePre(q) \o <<Func("try", <<Param("code", "int")>>, <<>>, SiteCall(form, Var("code")))>> \o [i \in 1..Len(q) |-> ExprS(CallE("try", <<NatLit(q[i])>>))]
+SiteHist == {Mk("C18/site/" \o form \o "/" \o where \o "/" \o BName(q), "top", SiteProg(q, form, where) \o <<Print1(StrL("end"))>>)
+             : q \in BSeqs(4), form \in {"define", "assign", "pipe", "cond"}, where \in {"loop", "func"}}
+ASSUME ndJsonSerialize("fam.ndjson", SetToSeq(One \cup Two \cup {c \in Many : TRUE} \cup Pipes \cup Seqs \cup Hist3 \cup SiteHist))
 =============================================================================
